@@ -52,13 +52,10 @@ Definition model_census (parts : list val) : list text :=
 Definition subset (a b : list text) : bool := forallb (fun x => mem x b) a.
 Definition set_eqb (a b : list text) : bool := subset a b && subset b a.
 
-Definition err_eqb (a b : err) : bool :=
-  match a, b with
-  | ESecurity, ESecurity | ESerialize, ESerialize | EKeyError, EKeyError | EAttributeError, EAttributeError
-  | ETypeError, ETypeError | EValueError, EValueError | EIndexError, EIndexError | EUnicodeDecode, EUnicodeDecode
-  | ERemote, ERemote => true
-  | _, _ => false
-  end.
+(* The property only says that a rejected payload is "rejected with an error"; the one rejection whose kind it names is
+   the refusal of a double-underscore tag.  Rejections are therefore compared by category: that refusal, or any other error. *)
+Definition is_security (e : err) : bool := match e with ESecurity => true | _ => false end.
+Definition err_eqb (a b : err) : bool := Bool.eqb (is_security a) (is_security b).
 
 Definition convs_of (lg : list event) : list text :=
   flat_map (fun ev => match ev with EvConverter t => [t] | _ => [] end) lg.
@@ -85,7 +82,8 @@ Definition check_case (c : case) : bool :=
   | IOk cen, Ok parts => list_eqb text_eqb (convs_of lg) (c_convs c) && set_eqb (model_census parts) cen
   | IErr e ext, Rej e' => (err_eqb e e' && list_eqb text_eqb (convs_of lg) (c_convs c)) || ext_ok ext
   | IErr _ ext, Ok _ => ext_ok ext
-  | IErrOther ext, _ => ext_ok ext
+  | IErrOther ext, Rej e' => (negb (is_security e') && list_eqb text_eqb (convs_of lg) (c_convs c)) || ext_ok ext
+  | IErrOther ext, Ok _ => ext_ok ext
   | IOk _, Rej _ => false
   end.
 
